@@ -355,7 +355,7 @@ pub struct Report {
     pub inconclusive: Mutex<Vec<String>>,
 }
 
-fn hash_bytes(b: &[u8]) -> u64 {
+pub fn hash_bytes(b: &[u8]) -> u64 {
     // FNV-1a 64
     let mut h: u64 = 0xcbf29ce484222325;
     for x in b {
